@@ -18,7 +18,7 @@ import random
 
 INT = "(RANGE (INT) (CONSTANT int -32768) (CONSTANT int 32767))"
 BINOPS = {"LE": "<=", "GE": ">=", "LT": "<", "GT": ">", "EQ": "==", "NEQ": "!=", "AND": "&&", "PLUS": "+", "MULT": "*",
-          "ASSIGN": "=", "COMMA": ",", "FRACTION": ":", "MINUS": "-"}
+          "ASSIGN": "=", "COMMA": ",", "FRACTION": ":", "MINUS": "-", "MOD": "%"}
 
 
 # ------------------------------------------------------------------------------------------------ expressions
@@ -219,6 +219,8 @@ class Gen:
         src_bp = bps and r.random() < 0.25
         src = r.choice(bps) if src_bp else r.choice(lids)
         tgt = r.choice(bps) if (bps and not src_bp and r.random() < 0.25) else (src if (not src_bp and r.random() < 0.15) else r.choice(lids))
+        if src_bp and len(bps) > 1 and r.random() < 0.3:
+            tgt = r.choice([b for b in bps if b != src])      # a chained probabilistic choice: both endpoints are branchpoints
         ctrl = r.choice([None, None, True, False])
         labels = []
         sel = []
@@ -236,6 +238,9 @@ class Gen:
                 # a template parameter used in a label (it has to be visible in the template's frame)
                 pn = r.choice([p for p in params if p["kind"] in ("int", "constint", "idT")])["name"]
                 g = ["EQ", ["id", "m"], ["PLUS", ["id", pn], ["int", self.K()]]]
+            elif c < 0.55:
+                # `%` followed by a name that starts like a printf conversion (`% gn`, `% gv0`): label texts are data, never a format
+                g = ["EQ", ["MOD", ["id", "m"], ["id", r.choice(["gn", "gv0"])]], ["int", 0]]
             elif c < 0.6:
                 g = ["GE", ["id", "m"], ["int", self.K()]]
             elif c < 0.8:
@@ -247,7 +252,9 @@ class Gen:
             rest.append(["synchronisation", [["ARRAY", ["id", "ch"], ["int", self.K()]], r.choice("!?")]])
         if r.random() < 0.5:
             c = r.random()
-            if c < 0.5:
+            if c < 0.1:
+                u = ["ASSIGN", ["id", "m"], ["MOD", ["id", "m"], ["id", "gn"]]]
+            elif c < 0.5:
                 u = ["ASSIGN", ["id", "m"], ["int", self.K()]]
             elif c < 0.8:
                 u = ["COMMA", ["ASSIGN", ["id", "m"], ["int", self.K()]], ["ASSIGN", ["id", "x"], ["int", 0]]]
